@@ -1,9 +1,11 @@
 """C17 — a transaction's changed entities are exactly the versions it wrote."""
 import corebase as B
-from corebase import CHECK_MODS, CASE_TYPE, CORR, run_impl, encode, shrink  # noqa: F401
+from corebase import run_impl  # noqa: F401
 
 PROP = 'C17'
-PROPCHK = 'C17_prop'
+CHECK_MODS = list(B.CHECK_MODS) + ['Checks.C17chk']
+CASE_TYPE = 'C17_case'
+CORR, PROPCHK = 'C17c_corr', 'C17c_prop'
 THEOREMS = ['C17_changed_entities_exact', 'C17_recorded_names', 'C17_one_entry_per_class',
             'C17_rows_iff_operations', 'C17_example']
 RULE = ('histories over the blog shape (3 versioned classes + 1 non-versioned), a joined/single-table hierarchy and a shape with two versioned classes of the SAME __name__ in different modules (use_module_name), touching random subsets of the classes in '
@@ -38,10 +40,52 @@ def gen_cases(rng, n, tier):
     return cases
 
 
+def encode(case, obs):
+    return '(%s %s)' % ('C17_O' if case.get('obs_only') else 'C17_H', B.encode(case, obs))
+
+
+def classify(case, obs):
+    """Open finding F-C17-class-change-drops-child-part: within one transaction a joined-table child (class 1 of the inh
+    shape) is deleted and flushed and its key is added again as a class without the child table."""
+    if not case.get('obs_only') or case['cfg'].get('shape') != 'inh':
+        return None
+    import json
+    deleted, flushed = {}, set()
+    for op in case['prog']:
+        if op[0] in ('commit', 'rollback'):
+            deleted, flushed = {}, set()
+        elif op[0] in ('del', 'delbase') and op[1] == 1:
+            deleted[json.dumps(op[2])] = op[1]
+        elif op[0] == 'flush':
+            flushed |= set(deleted)
+        elif op[0] == 'add' and op[1] != 1 and json.dumps(op[2]) in flushed:
+            return 'F-C17-class-change-drops-child-part'
+    return None
+
+
+
+
+def shrink(case):
+    out = B.shrink(case)
+    for c in out:
+        if case.get('obs_only'):
+            c['obs_only'] = True
+    return out
+
+
 def corpus():
     cfg = dict(shape='blog', strategy='validity', changes=True, tracker=False, null_delete=False, autoflush=False,
                read_changed_entities=True)
-    return [dict(cfg=cfg, prog=[['add', 0, 1, {'a': 1}], ['commit'], ['set', 0, 1, {'a': 2}], ['flush'], ['readnames'],
+    inh = dict(shape='inh', strategy='validity', changes=True, tracker=False, null_delete=False, autoflush=False, twin=False)
+    return [
+        # a key that comes back as ANOTHER class of its hierarchy within one transaction (judged on the observations
+        # only: Layer B does not express a class change): both class names have to be recorded
+        dict(cfg=inh, obs_only=True,
+             prog=[['add', 0, 1, {'a': 1}], ['add', 0, 2, {'a': 1}], ['commit'], ['del', 0, 1], ['flush'],
+                   ['add', 1, 1, {'a': 2, 'pages': 3}], ['set', 0, 2, {'a': 2}], ['commit']]),
+        dict(cfg=dict(inh, strategy='subquery'), obs_only=True,
+             prog=[['add', 1, 1, {'a': 1, 'pages': 1}], ['add', 0, 2, {'a': 1}], ['commit'], ['del', 1, 1], ['flush'],
+                   ['add', 0, 1, {'a': 2}], ['set', 0, 2, {'a': 2}], ['commit']]),dict(cfg=cfg, prog=[['add', 0, 1, {'a': 1}], ['commit'], ['set', 0, 1, {'a': 2}], ['flush'], ['readnames'],
                                 ['add', 1, 1, {'a': 0}], ['flush'], ['add', 2, 1, {'a': 0}], ['commit']])]
 
 
